@@ -463,6 +463,7 @@ class CalibrationDataBlock(Block):
                 o.calibration_volume_translation_vector,
             )
             and np.array_equal(self.cameras_calibration_map, o.cameras_calibration_map)
+            and len(self.cam_data) == len(o.cam_data)
             and all(i == j for i, j in zip(self.cam_data, o.cam_data))
             and self.format == o.format
         )
